@@ -72,7 +72,11 @@ func (x *exec) drainPending() {
 		delete(x.pending, key)
 		// few arrivals: continue from each one separately (no information is lost);
 		// many arrivals: merge them into one generic state
-		if len(g.states) <= mergeThreshold {
+		thr := mergeThreshold
+		if x.ctx.C != nil && x.ctx.C.MergeAt > 0 {
+			thr = x.ctx.C.MergeAt // contract directive `mergeat N`
+		}
+		if len(g.states) <= thr {
 			for _, st := range g.states {
 				x.enterLoop(st, g.header, g.li)
 			}
